@@ -92,7 +92,15 @@ class Cfg:
         else:
             p = scratch.path("ck")
             f.export(p)
-            g = cls(filepath=p, **kw)
+            self._n_path = getattr(self, "_n_path", self.capacity + self.max_swaps) + 1  # (which form comes first differs from case to case)
+            if self._n_path % 2:
+                g = cls(filepath=p, **kw)
+            else:
+                # the ORIGINAL construction arguments repeated next to filepath= (the file wins: its table may have grown since), the
+                # capacity argument sometimes replaced by a power of two or by the table's present capacity
+                cap = [self.capacity, self.capacity, 1 << max(1, self.capacity.bit_length() - 1), 8, f.capacity][self._n_path // 2 % 5]
+                g = cls(capacity=cap, bucket_size=self.bucket_size, max_swaps=self.max_swaps, expansion_rate=self.expansion_rate,
+                        auto_expand=self.auto_expand, finger_size=self.finger_size, filepath=p, **kw)
         # what the format does not store is re-supplied
         if not self.err_bits:
             g.fingerprint_size = self.finger_size
@@ -107,6 +115,8 @@ def gen_cfg(rng, counting=None, small=True, allow_rate=True):
     if rng.random() < 0.12:
         capacity = rng.randint(9, 70)  # any capacity, not only the listed ones
     bucket_size = rng.choice([1, 1, 2, 2, 3, 4]) if rng.random() < 0.9 else rng.randint(5, 9)
+    if rng.random() < 0.04:
+        bucket_size, capacity = rng.randint(10, 40), rng.choice([1, 2, 3])  # a few WIDE buckets (a bucket is a small table of its own)
     max_swaps = rng.choice([1, 2, 2, 3, 4, 5, 6])
     finger_size = rng.choice([1, 1, 2, 3, 4])
     auto_expand = rng.random() < 0.5
